@@ -411,8 +411,8 @@ def with_engine(o, name: str, fn):
     """Run an additional engine `fn()` that reports into the Outcome `o`; every case it reports is
     tagged with engine=<name> so that --replay can hand it back to that engine."""
     v, c = o.violation, o.classify
-    o.violation = lambda case, why, **kw: v(dict(case, engine=name), why, **kw)
-    o.classify = lambda case, why, devs, **kw: c(dict(case, engine=name), why, devs, **kw)
+    o.violation = lambda case, why, *a, **kw: v(dict(case, engine=name), why, *a, **kw)
+    o.classify = lambda case, why, devs, *a, **kw: c(dict(case, engine=name), why, devs, *a, **kw)
     try:
         return fn()
     finally:
